@@ -342,6 +342,34 @@ def chains(draw):
             "form": draw(st.sampled_from(["positional", "positional", "keyword", "defaults"]))}
 
 
+_FILL_STEPS = ["cart", "tm", "tm", "cart"] + ["geo:" + n for n in NOTATIONS] + ["notation:" + n for n in NOTATIONS]
+
+
+def _fill_build(u):
+    """World-wide positions (UTM, three quarters) or positions in the ISG zones, a three-step chain, a start kind, a notation and
+    heights (absent / zero / value) from the coordinates of a low-discrepancy point."""
+    if u[2] < 0.75:
+        prj, r = "utm", u[2] / 0.75
+        ell = "grs80" if r < 0.67 else "ans"
+        lat, lon = -79.9 + 163.8 * u[0], -179.99 + 359.98 * u[1]
+    else:
+        prj, r = "isg", (u[2] - 0.75) * 4
+        ell = "ans" if r < 0.67 else "grs80"
+        lat = -44.0 + 34.0 * u[0]
+        lon = (138.000001 + 17.999998 * u[1] / 0.9) if u[1] < 0.9 else (158.000001 + 1.999998 * (u[1] - 0.9) * 10)
+    s1, r1 = S.u_pick(u[3], _FILL_STEPS)
+    s2, r2 = S.u_pick(r1, _FILL_STEPS)
+    s3, r3 = S.u_pick(u[4], _FILL_STEPS)
+    start, r4 = S.u_pick(r3, ["geo", "geo", "cart", "tm"])
+    notation, r5 = S.u_pick(u[5], NOTATIONS)
+    hs = []
+    for k in range(3):
+        hk, r5 = S.u_pick(r5, [None, 0.0, "v"])
+        hs.append(-100.0 + 9100.0 * ((u[5] * (7 + 4 * k)) % 1.0) if hk == "v" else hk)
+    return {"lat": lat, "lon": lon, "ell": ell, "prj": prj, "start": start, "notation": notation, "h_ell": hs[0], "h_orth": hs[1],
+            "nval": hs[2], "chain": [s1, s2, s3], "form": "positional"}
+
+
 def _nt(case):
     ops = {s.partition(":")[0] for s in case["chain"]}
     zero_or_absent = any(case[k] is None or case[k] == 0 for k in ("h_ell", "h_orth", "nval"))
@@ -365,10 +393,17 @@ SUBCHECKS_EXTRA = [
                   "the exact projection (0.3 mm) with no harness call in between"),
 ]
 
+SUBCHECKS_FILL = [
+    SubCheck("chain_fill", check_chain, enumerate=S.fill(1515, 6, _fill_build, 24000, 480000), nontrivial=_nt, classes=_classes,
+             shards_quick=12, shards_thorough=16,
+             rule="low-discrepancy fill of latitude x longitude x projection / ellipsoid x three conversion steps x start kind x notation x heights: "
+                  "24 000 / 480 000 chains, judged like conversion_chains"),
+]
+
 SUBCHECKS = [
     SubCheck("conversion_chains", check_chain, strategy=chains(), nontrivial=_nt, classes=_classes,
              quick=3000, thorough=200000, shards_quick=4, shards_thorough=16,
              rule="every step == functional API for the same ellipsoid / projection / notation (exact); heights preserved geo<->tm, "
                   "N = h - H to/from Cartesian (zero is a value); notation changes keep the position (1e-8\"); closure 0.3 mm at every step"),
 ]
-SUBCHECKS += SUBCHECKS_EXTRA
+SUBCHECKS += SUBCHECKS_EXTRA + SUBCHECKS_FILL
